@@ -24,10 +24,29 @@ def main():
         print("no diff", diff); return 2
     mdtext = open(md).read() if os.path.exists(md) else ""
     # demo command: first `go test ... -run ...` line of the write-up
-    m = re.search(r"cd\s+(v2|execution)\s*&&\s*go test[^\n`]*?-run\s+('([^']+)'|\"([^\"]+)\"|(\S+))\s+(\./\S+)", mdtext)
-    if not m:
-        print("cannot find demo command in", md); return 2
-    mod, pat, pkg = m.group(1), (m.group(3) or m.group(4) or m.group(5)), m.group(6).rstrip("`.,;)")
+    mod = pat = pkg = None
+    for line in mdtext.splitlines():
+        if "go test" not in line or "-run" not in line:
+            continue
+        mr = re.search(r"-run[ =]+('([^']+)'|\"([^\"]+)\"|(\S+))", line)
+        mp = re.search(r"(\./[\w/\.\-]+)", line)
+        if not mr or not mp:
+            continue
+        pat = mr.group(2) or mr.group(3) or mr.group(4)
+        pkg = mp.group(1).rstrip("`.,;)")
+        mc = re.search(r"cd\s+(?:\S*/)?(v2|execution)\b", line)
+        if mc:
+            mod = mc.group(1)
+        elif pkg.startswith("./pkg"):
+            mod = "v2"
+        else:
+            mod = "execution"
+        break
+    if not pat:
+        print("cannot find demo command in", md)
+        os.makedirs("/tmp/vs/results", exist_ok=True)
+        json.dump({"property": pid, "change": int(n), "status": "rejected: no demo command recognised in the write-up"}, open(f"/tmp/vs/results/{pid}-{n}.json", "w"))
+        return 2
     demos = sorted(glob.glob(f"{out}/change{n}_demo*_test.go"))
     # only the demo files whose package matches the target dir are dropped in (e2e variants name another dir in the md)
     wt = f"/tmp/vs/{pid}-{n}"
@@ -74,7 +93,7 @@ def main():
             # drop in only if the directory's package name matches
             existing = [f for f in glob.glob(f"{target}/*.go")]
             names = set(re.search(r"^package\s+(\w+)", open(f).read(), re.M).group(1) for f in existing[:40] if re.search(r"^package\s+(\w+)", open(f).read(), re.M))
-            if pkgname in names:
+            if pkgname in names or any(pkgname == x + "_test" for x in names) or any(x == pkgname + "_test" for x in names):
                 shutil.copy(d, target); used.append(os.path.basename(d))
         meta["demo_files_used"] = used
         rcw, ow = sh(f"go test -vet=off -count=1 -timeout 10m -run '{pat}' {pkg}", cwd=f"{wt}/{mod}", timeout=900)
